@@ -53,9 +53,13 @@ def make_graph(rng, max_formulas):
     for s in range(ns):
         for r in range(1, 3):
             for c in COLS:
-                if rng.random() < 0.8:
+                k_ = rng.random()
+                if k_ < 0.65:
                     sheets[s][f'{c}{r}'] = val
                     val += rng.randrange(1, 7)
+                elif k_ < 0.85:
+                    # falsy but NOT blank: a slice that prunes them (or confuses them with blanks) differs in AVERAGE, COUNT, MIN, &, type
+                    sheets[s][f'{c}{r}'] = rng.choice([0, 0, False, 0.0])
     formulas = []
     nf = rng.randrange(3, max_formulas + 1)
     for k in range(nf):
@@ -96,7 +100,7 @@ def make_graph(rng, max_formulas):
 
         own = titles[s]
         kind = rng.choice(['cell2', 'cell2', 'v', 'h', 'rect', 'col', 'cols', 'sumif', 'index_multi', 'index_join', 'networkdays', 'count',
-                           'vlookup', 'match', 'shared', 'if', 'iferror'])
+                           'vlookup', 'match', 'shared', 'if', 'iferror', 'blankaware', 'blankaware'])
         R = lambda ta: sref(rng, own, titles[ta[0]], ta[1])
         if kind == 'cell2':
             f = f'={R(pick_cell())}+{R(pick_cell())}*2'
@@ -124,6 +128,10 @@ def make_graph(rng, max_formulas):
         elif kind == 'shared':
             ar = R(pick_area('rect'))
             f = f'=SUM({ar})+MAX({ar})-MIN({ar})+SUM({ar})'
+        elif kind == 'blankaware':
+            ar = R(pick_area('rect'))
+            f = rng.choice([f'=AVERAGE({ar})+COUNT({ar})*1000', f'=COUNTBLANK({ar})*100+COUNT({ar})', f'={R(pick_cell())}&"|"&{R(pick_cell())}', f'=MIN({ar})&"/"&MAX({ar})',
+                            f'=IF({R(pick_cell())}="",1,2)+IF({R(pick_cell())}=0,10,20)'])
         elif kind == 'if':
             f = f'=IF({R(pick_cell())}>{R(pick_cell())},{R(pick_cell())},SUM({R(pick_area("h"))}))'
         else:
@@ -229,12 +237,18 @@ def _walk(n):
             yield from _walk(x)
 
 
+from ..xlref.values import BLANK as BLANK_  # noqa: E402
+
+
 def same(o1, o2):
     if o1.ok != o2.ok:
         return False
     if not o1.ok:
         return True
     a, b = norm(o1.value), norm(o2.value)
+    # the blank object equals 0 / "" / FALSE in the library's own comparisons: the slice has to hand over the SAME KIND of value
+    if (a is BLANK_) != (b is BLANK_) or isinstance(a, bool) != isinstance(b, bool):
+        return False
     return val_eq(a, b, exact=True)
 
 
